@@ -52,6 +52,7 @@ TOL = {
     "ivp_s": 1e-3,          # measured worst 2.0e-5
     "lin": 20 * BVP_TOL,    # measured worst (see calibration)
     "robust_exact": 1e-10,  # measured worst 3e-17
+    "robust_core": 1e-3,
     "robust_smooth": 1e-2,  # measured worst 1.0e-4 (C core not resolved by the grid)
     "robust_vs_plain": 1e-2,
     "lap": 2e-2,            # measured worst 2e-4
@@ -201,17 +202,17 @@ def run_case(case, orc, table, seed):
             v = solve_poisson_ivp(grid, rho, itf, r_interval=(1000.0, 1e-3))
             Pi = eval_points(atoms, seed * 1000 + case["id"], lo=0.2, hi=8.0)
             out.append(("ivp_s", rel(v(Pi), pot(terms, owner, Pi)), None))
-        elif kind in ("robust_exact", "robust_smooth"):
+        elif kind in ("robust_exact", "robust_smooth", "robust_core"):
             atnums = np.array([_Z[e] for e in case["elements"]])
             atcoords = np.array(atoms)
-            if kind == "robust_exact":
-                ts, ows = [], []
+            ts, ows = [], []
+            if kind in ("robust_exact", "robust_core"):
                 for e, a in zip(case["elements"], atoms):
                     for c, al in zip(table[e]["coeffs_s"], table[e]["alphas_s"]):
                         ts.append({"l": 0, "i": 1, "c": _q(c), "alpha": _q(al), "d": [[0, 1]] * 3})
                         ows.append(a)
-            else:
-                ts, ows = terms, owner
+            if kind in ("robust_smooth", "robust_core"):
+                ts, ows = ts + list(terms), ows + list(owner)
             rho = dens(ts, ows, grid.points)
             v = solve_poisson_robust(grid, rho, itf, atnums, atcoords, split2=bool(case["split2"]), **kw)
             ex = pot(ts, ows, P)
@@ -256,12 +257,12 @@ _G = {}
 
 def select(cases, tier, rng):
     if tier == "thorough":
-        return [c for c in cases if c["id"] < 200]
+        return list(cases)
     # quick: 4 cases ~ one of each expensive family, seeded
     by = {}
     for c in cases:
         by.setdefault(c["kind"], []).append(c)
-    kinds = ["bvp_chan", "robust_exact", "ivp_s", "lin", "bvp_s", "bvp_off", "robust_smooth", "lap", "mol"]
+    kinds = ["bvp_chan", "robust_exact", "ivp_s", "lin", "bvp_s", "bvp_off", "robust_smooth", "robust_core", "lap", "mol"]
     rng.shuffle(kinds)
     picked = [rng.choice(by["bvp_chan"]), rng.choice(by["robust_exact"])]
     for k in kinds:
